@@ -1,5 +1,10 @@
 /-
   Reference definitions for the string utilities (C19) that other modules also use.
+
+  Everything here is a pure function on NUL-free byte lists ("C strings without their
+  terminator"); nothing mentions buffers, cursors or capacities. The raw-buffer model of
+  `src/utilities/qstring.c` is `Str/Model.lean`; `Props/C19.lean` proves that the model computes
+  these functions for every input.
 -/
 import QlibcModel.Base.Fault
 namespace Qlibc.Str
@@ -10,5 +15,83 @@ def isWs (c : UInt8) : Bool := c == 32 || c == 9 || c == 13 || c == 10
 def trimHead (s : Bytes) : Bytes := s.dropWhile isWs
 def trimTail (s : Bytes) : Bytes := (s.reverse.dropWhile isWs).reverse
 def trim (s : Bytes) : Bytes := trimTail (trimHead s)
+
+/-- the C string a buffer holds: the bytes before the first NUL -/
+def cstr (buf : Bytes) : Bytes := buf.takeWhile (· != 0)
+
+/-- `qstrunchar`: strip one leading `head` and one trailing `tail` byte when the string has at
+    least two bytes, starts with `head` and ends with `tail`; otherwise "no result" (NULL). -/
+def unchar (head tail : UInt8) (s : Bytes) : Option Bytes :=
+  if 2 ≤ s.length ∧ s.head? = some head ∧ s.getLast? = some tail then
+    some ((s.drop 1).dropLast)
+  else none
+
+/-- string-mode replace: scan left to right; wherever `tok` occurs at the cursor emit `word` and
+    continue *after* the occurrence (leftmost, non-overlapping), otherwise emit the byte.
+    `tok = []` is outside the property (the C code does not terminate); here it is the identity. -/
+def replaceAll (tok word : Bytes) (s : Bytes) : Bytes :=
+  if tok = [] then s else
+  match s with
+  | [] => []
+  | c :: r =>
+    if tok.isPrefixOf (c :: r) then word ++ replaceAll tok word ((c :: r).drop tok.length)
+    else c :: replaceAll tok word r
+termination_by s.length
+decreasing_by
+  · rename_i h _
+    have : 0 < tok.length := List.length_pos_iff.mpr h
+    simp only [List.length_drop, List.length_cons]; omega
+  · simp
+
+/-- token-mode replace: every byte that is listed in `toks` becomes `word`, every other byte is kept -/
+def replaceChars (toks word : Bytes) (s : Bytes) : Bytes :=
+  s.flatMap fun c => if toks.contains c then word else [c]
+
+/-- all fields of `s` separated by any byte of `delims` (k delimiters give k+1 fields) -/
+def splitFields (delims : Bytes) : Bytes → List Bytes
+  | [] => [[]]
+  | c :: s =>
+    if delims.contains c then [] :: splitFields delims s
+    else match splitFields delims s with
+      | f :: fs => (c :: f) :: fs
+      | [] => [[c]]
+
+/-- what iterating `qstrtok` returns: every field in order, empty ones included, except that an
+    empty field after the last delimiter (or the single empty field of the empty string) is not
+    returned: `"a:b::d"` ↦ a, b, "", d;  `"a:"` ↦ a;  `":a"` ↦ "", a;  `""` ↦ nothing. -/
+def splitOnAny (delims : Bytes) (s : Bytes) : List Bytes :=
+  let fs := splitFields delims s
+  if fs.getLast? = some [] then fs.dropLast else fs
+
+/-- bounded copy: the first `size - 1` bytes (a destination of `size ≥ 1` bytes incl. terminator) -/
+def boundedCopy (size : Nat) (s : Bytes) : Bytes := s.take (size - 1)
+
+/-- `qstrgets` on the non-empty rest `s` of the text with a buffer of `size ≥ 1` bytes: look at
+    the first `size - 1` bytes; the line is what precedes the first LF among them (all of them
+    when there is none), stored without CRs; the cursor advances over the line and its LF. -/
+def getsLine (size : Nat) (s : Bytes) : Bytes × Nat :=
+  let pre := s.take (size - 1)
+  let line := pre.takeWhile (· != 10)
+  (line.filter (· != 13), if line.length < pre.length then line.length + 1 else line.length)
+
+def asciiUpper (c : UInt8) : UInt8 := if 97 ≤ c ∧ c ≤ 122 then c - 32 else c
+def asciiLower (c : UInt8) : UInt8 := if 65 ≤ c ∧ c ≤ 90 then c + 32 else c
+def upper (s : Bytes) : Bytes := s.map asciiUpper
+def lower (s : Bytes) : Bytes := s.map asciiLower
+
+/-- index of the first occurrence of `needle` in `s` (C `strstr`; the empty needle is found at 0) -/
+def findSub (needle : Bytes) : Bytes → Option Nat
+  | [] => if needle = [] then some 0 else none
+  | c :: s => if needle.isPrefixOf (c :: s) then some 0 else (findSub needle s).map (· + 1)
+
+/-- `qstrdup_between`: what lies between the first `start` and the first `stop` after it -/
+def dupBetween (s start stop : Bytes) : Option Bytes :=
+  match findSub start s with
+  | none => none
+  | some i =>
+    let s' := s.drop (i + start.length)
+    match findSub stop s' with
+    | none => none
+    | some j => some (s'.take j)
 
 end Qlibc.Str
